@@ -27,6 +27,7 @@ func init() {
 	register("C04", "model_checking", func(r *ev.Run) {
 		ctlCampaign(r, "C04")
 		ctlLiveness(r)
+		httpGenerationsLeg(r)
 		repoTestsLeg(r, "C04")
 		freeRunLeg(r, "C04", map[string]int{"quick": 300, "thorough": 3000}[r.Tier])
 		outCampaign(r, "C04")
